@@ -1,7 +1,7 @@
 (* C04 property theorems.  Nothing but statements closed by `exact`, statement pins and
    Print Assumptions.  bs ranges over ALL bit lists, p/k/i over all naturals. *)
 From Coq Require Import List Arith Lia Bool.
-From ZV.C04 Require Import Spec Model ProofsRank ProofsFew.
+From ZV.C04 Require Import Spec Model ModelIL ProofsRank ProofsFew ProofsSelect ProofsSelect0 ProofsIL.
 Import ListNotations.
 
 (* --- spec layer: the definition itself has the laws the property names --- *)
@@ -63,6 +63,49 @@ Check se512_count_ones : forall bs sp0 sp1,
   max_rank1 (build bs sp0 sp1) = count1 bs /\ size (build bs sp0 sp1) = length bs.
 Print Assumptions se512_count_ones.
 
+
+(* select1 of SE512 as written: optional select cache, binary search over the line directory,
+   descending scan over the packed sub-block ranks, in-word select; for every bit list, every k,
+   both cache settings: the position of the k-th one, refused exactly when k >= number of ones *)
+Theorem se512_select1_correct : forall bs sp0 sp1 k,
+  se_select1 (build bs sp0 sp1) k = select1 bs k.
+Proof. exact se_select1_correct_proof. Qed.
+Check se512_select1_correct : forall bs sp0 sp1 k,
+  se_select1 (build bs sp0 sp1) k = select1 bs k.
+Print Assumptions se512_select1_correct.
+
+(* select0 of SE512 as written (zero counts = line*512 - ones, zero-padded inverted words) *)
+Theorem se512_select0_correct : forall bs sp0 sp1 k,
+  se_select0 (build bs sp0 sp1) k = select0 bs k.
+Proof. exact se_select0_correct_proof. Qed.
+Check se512_select0_correct : forall bs sp0 sp1 k,
+  se_select0 (build bs sp0 sp1) k = select0 bs k.
+Print Assumptions se512_select0_correct.
+
+(* --- RankSelectInterleaved256 as written (256-bit lines: u32 rlev1, four u8 rlev2, four data words;
+       positions past the end are clamped to the length) --- *)
+Theorem il256_rank1_correct : forall bs p, il_rank1 (il_build bs) p = rank1 bs (Nat.min p (length bs)).
+Proof. exact il_rank1_correct_proof. Qed.
+Check il256_rank1_correct : forall bs p, il_rank1 (il_build bs) p = rank1 bs (Nat.min p (length bs)).
+Print Assumptions il256_rank1_correct.
+
+Theorem il256_rank0_correct : forall bs p, il_rank0 (il_build bs) p = rank0 bs (Nat.min p (length bs)).
+Proof. exact il_rank0_correct_proof. Qed.
+Check il256_rank0_correct : forall bs p, il_rank0 (il_build bs) p = rank0 bs (Nat.min p (length bs)).
+Print Assumptions il256_rank0_correct.
+
+Theorem il256_get_correct : forall bs i,
+  il_get (il_build bs) i = if length bs <=? i then None else Some (nth i bs false).
+Proof. exact il_get_correct_proof. Qed.
+Check il256_get_correct : forall bs i,
+  il_get (il_build bs) i = if length bs <=? i then None else Some (nth i bs false).
+Print Assumptions il256_get_correct.
+
+Theorem il256_count_ones : forall bs, il_ones (il_build bs) = count1 bs /\ il_bits (il_build bs) = length bs.
+Proof. exact il_count_ones_proof. Qed.
+Check il256_count_ones : forall bs, il_ones (il_build bs) = count1 bs /\ il_bits (il_build bs) = length bs.
+Print Assumptions il256_count_ones.
+
 (* --- RankSelectFewOne as written (sorted positions + partition point) --- *)
 Theorem few_rank1_correct : forall bs p,
   few_rank1 (few_build bs) p = if length bs <? p then None else Some (rank1 bs p).
@@ -86,5 +129,6 @@ Print Assumptions few_get_correct.
 (* non-vacuity: a 600-bit vector crossing a line boundary meets the hypotheses *)
 Example se512_nonvacuous :
   let bs := repeat true 300 ++ repeat false 213 ++ repeat true 87 in
-  se_rank1 (build bs true true) 600 = Some 387 /\ se_rank1 (build bs true true) 513 = Some 300.
-Proof. vm_compute. split; reflexivity. Qed.
+  se_rank1 (build bs true true) 600 = Some 387 /\ se_rank1 (build bs true true) 513 = Some 300 /\
+  se_select1 (build bs true true) 300 = Some 513 /\ se_select1 (build bs true true) 387 = None.
+Proof. vm_compute. repeat split; reflexivity. Qed.
